@@ -987,6 +987,10 @@ func main() {
 			rewoundProbeMain(os.Args[2:])
 			return
 		}
+		if os.Getenv("C06_RECPROBE") != "" {
+			recProbeMain(os.Args[2:])
+			return
+		}
 		if os.Getenv("C06_SORTPROBE") != "" {
 			sortProbeMain(os.Args[2:])
 			return
@@ -1275,13 +1279,26 @@ func main() {
 		files[k].flush(sum, cfg.Out)
 	}
 
+	t0 := time.Now()
+	lap := func(what string) {
+		if os.Getenv("C06_TIMING") != "" {
+			fmt.Fprintf(os.Stderr, "c06 timing: %s %.1fs\n", what, time.Since(t0).Seconds())
+		}
+		t0 = time.Now()
+	}
 	runRewoundStream(cfg, sum, vhlib.NewRng(cfg.Seed*7919+606), tables)
+	lap("rewound")
 	runMergedStream(cfg, sum, vhlib.NewRng(cfg.Seed*7919+607), tables)
+	lap("merged")
+	runRecordwiseStream(cfg, sum, vhlib.NewRng(cfg.Seed*7919+608))
+	lap("recordwise")
 	runChild("planned", cfg, sum, 3)
 	runChild("missingcol=eval_missing_column", cfg, sum, 1)
 	runChild("missingcol=sort_missing_column", cfg, sum, 1)
 	runChild("race", cfg, sum, 1)
+	lap("planned+race children")
 	runE2E(cfg, sum, rng.Fork())
+	lap("e2e")
 	sum.Write(cfg.Out)
 }
 
@@ -1574,6 +1591,13 @@ func e2eQueries() []e2eQuery {
 		{"* | bin bins=3 lat | sort lat, id | fields id, lat", "twopass_bin", cmpOrdered, ""},
 		{"* | fields id, a, opt, v | fillnull value=0 | stats count by opt", "twopass_fillnull", cmpMultiset, ""},
 		{"* | fields id, opt | fillnull value=none | top opt", "twopass_fillnull", cmpCounts, ""},
+		// per-record commands that write a column the events already have, condition true for a part of
+		// the events: a block without any qualifying event must come out like the same events in a
+		// block that has one (stream "recordwise" at processor level)
+		{`* | rex field=s "k(?<v>[12])=" | fields id, v`, "rex", cmpOrdered, ""},
+		{`* | rex field=s "k1=w(?<a>\d)" | fields id, a`, "rex", cmpOrdered, ""},
+		{`* | eval a=if(v>2, "big", null()) | fields id, a`, "rowwise", cmpOrdered, ""},
+		{"* | rename v as a | fields id, a", "rowwise", cmpOrdered, ""},
 	}
 }
 
